@@ -217,10 +217,13 @@ def check_roundtrip(c, ctx, count=True):
     live0 = lib.fftw_shim_live_allocs()
     fw = FFTWrapper(dims, ntransform=nt, fwd=True, r2c=r2c, inplace=ip_f, batch_first=bf)
     bw = FFTWrapper(dims, ntransform=nt, fwd=False, r2c=r2c, inplace=ip_b, batch_first=bf)
-    ctx.check(tuple(fw.output_shape) == tuple(bw.input_shape), ("roundtrip_shapes", cls),
-              fwd_out=list(fw.output_shape), bwd_in=list(bw.input_shape))
-    ctx.check(tuple(bw.output_shape) == tuple(fw.input_shape), ("roundtrip_shapes", cls),
-              bwd_out=list(bw.output_shape), fwd_in=list(fw.input_shape))
+    # shapes are judged before any C call: a wrong advertised shape would make the C side run over the
+    # numpy buffers that FFTWrapper.call allocates from it
+    fin, fout = expected_shapes(dims, nt, True, r2c, bf)
+    ctx.check(tuple(fw.input_shape) == fin and tuple(fw.output_shape) == fout, ("roundtrip_shapes", cls),
+              fwd_in=list(fw.input_shape), fwd_out=list(fw.output_shape), want_in=list(fin), want_out=list(fout))
+    ctx.check(tuple(bw.input_shape) == fout and tuple(bw.output_shape) == fin, ("roundtrip_shapes", cls),
+              bwd_in=list(bw.input_shape), bwd_out=list(bw.output_shape), want_in=list(fout), want_out=list(fin))
     x, _, n = make_input_and_reference(dims, nt, True, r2c, bf, c["seed"])
     y = fw.call(x)
     z = bw.call(y)
